@@ -91,12 +91,16 @@ fn add_detail_ranges(
 
     items.sort_by_key(|item| item.range.len());
 
-    result.extend(
-        items
-            .into_iter()
-            .map(|item| item.range)
-            .filter(|range| range.contains(offset)),
-    );
+    for range in items
+        .into_iter()
+        .map(|item| item.range)
+        .filter(|range| range.contains(offset))
+    {
+        // two markup items can span the same text (`***x***` is Em and Strong): a repeated range is no step outward
+        if result.last() != Some(&range) {
+            result.push(range);
+        }
+    }
 }
 
 pub struct DocumentSelectionRangeCapabilities;
